@@ -74,8 +74,11 @@ type Plan struct {
 	// carrying it are answered NOT_LEADER_FOR_PARTITION (nothing appended), so
 	// records for it sit buffered on a partition in a load-error state; a purge
 	// of the topic is scheduled inside the window.
-	MetaErr    bool `json:"metadata_partition_error,omitempty"`
-	KeepFrames bool `json:"keep_frames,omitempty"`
+	MetaErr bool `json:"metadata_partition_error,omitempty"`
+	// StartSeq: the client's produce partitions start their sequence numbers here
+	// instead of 0 (verif hook), so that a run crosses the 2^31 wrap (C29).
+	StartSeq   int32 `json:"start_seq,omitempty"`
+	KeepFrames bool  `json:"keep_frames,omitempty"`
 }
 
 // Rec is the monitor's cell for one record handed to the client.
@@ -492,6 +495,10 @@ func Run(plan Plan, watchdog time.Duration) (res *Result) {
 	if err != nil {
 		res.Inconcl = append(res.Inconcl, "client: "+err.Error())
 		return res
+	}
+	if plan.StartSeq != 0 {
+		kgo.VerifSetStartSequence(cl, plan.StartSeq)
+		defer kgo.VerifClearStartSequence(cl)
 	}
 	w.cl = cl
 	var closed atomic.Bool
